@@ -14,29 +14,29 @@ CHECKS = {
  "C04": ("exploration", "metamorphic monitor over histories: pristine vs after-real-history vs poisoned pools (verif hooks), plus immutability re-observation",
    "The same call is executed on pristine state, after a real history of other calls in the same process (GOMAXPROCS=1, GC off, so sync.Pool returns the same objects) and under poisoned pools; canonical observations must be identical. Returned Exif/XMP/preview values are re-observed after later calls.",
    "Trusted: the verif hooks (add-only) that replace pool variables at quiescent points; poison contents are states a legal earlier decode can leave.", "3/C04"),
- "C05": ("exploration", "Go race detector (-race build, reports parsed from GORACE log_path and de-duplicated by imagemeta frame pair) over a barrier-started, result-checking stress workload; per-call comparison with sequential golden observations; idle-deadlock watchdog",
-   "Rounds of 2-64 goroutines under GOMAXPROCS 1-32 perform seeded mixes of every decode/scan/parse/sniff/hash entry point on their own readers (valid, truncated, mutated files; TIFFs with fresh and conflicting OffsetTime strings so that zone-cache misses overlap; images for all hash functions) with yields injected at the reader boundary; the race detector must stay silent, every result must equal the result of the same call run alone on pristine state, nothing may panic, and a round must not stall CPU-idle. Evidence reports the overlap actually achieved (distinct in-flight signatures, completion orders, overlapping cache misses).",
+ "C05": ("exploration", "Go race detector (-race build, reports parsed from GORACE log_path and de-duplicated by imagemeta frame pair) over a barrier-started, result-checking stress workload; per-call comparison with sequential golden observations; idle-deadlock watchdog; cold-start bursts in fresh race-build processes",
+   "Rounds of 2-64 goroutines under GOMAXPROCS 1-32 perform seeded mixes of every decode/scan/parse/sniff/hash entry point on their own readers (valid, truncated, mutated files; TIFFs with fresh and conflicting OffsetTime strings so that zone-cache misses overlap; images for all hash functions) with yields injected at the reader boundary; the race detector must stay silent, every result must equal the result of the same call run alone on pristine state, nothing may panic, and a round must not stall CPU-idle. A quarter of the rounds flood the zone cache past its capacity; a third of the cases also start a fresh process of the race build in which 8 goroutines make the same kind of call as the very first library calls of that process (17 kinds) and then repeat them sequentially. Evidence reports the overlap actually achieved (distinct in-flight signatures, completion orders, overlapping cache misses).",
    "Trusted: the Go race detector (reports only races that occur); schedules are sampled, not enumerated; goldens come from the same binary run sequentially.", "3/C05"),
  "C06": ("exploration", "differential + reference-model monitor across containers built by the harness",
-   "One generated Exif payload is embedded in TIFF, JPEG, PNG, CR3 and HEIF files written by the harness with random surroundings; every container's decode entry points must report the same fields as the bare TIFF and as the reference expectation, with the container's image type.",
+   "One generated Exif payload is embedded in TIFF, CR2, JPEG, PNG, CR3 and HEIF files (32- and 64-bit mdat headers, one or two mdat boxes) written by the harness with random surroundings; every container's decode entry points must report the same fields as the bare TIFF and as the reference expectation, with the container's image type.",
    "Trusted: the harness's container writers (JPEG segments, PNG chunks with CRCs, ISOBMFF boxes); CR3 stores the three directories as three TIFF blobs.", "3/C06"),
  "C07": ("exploration", "paired differential monitor: II vs MM builds of the same record, layout and surroundings",
    "Each record/layout is serialised twice from the same streams, once per byte order, embedded in all five containers and decoded from pristine state; observations and errors of the pair must be identical.",
    "Trusted: the harness's writers produce pairs that differ in byte order only.", "3/C07"),
  "C08": ("fault_enumeration", "metamorphic monitor: fixed list of chunk schedules (incl. data+EOF) enumerated per input vs in-memory reader",
-   "Every input (files, truncations incl. cuts inside out-of-line values, malformations, grammar-based shapes) is decoded over an in-memory reader and then over every schedule of a fixed list of short-read schedules (1 byte ... 4097, 64 KiB, mixed cycles, data delivered together with io.EOF, whole requests with data+EOF on the last read) with a working Seek; canonical observations must be identical.",
-   "Trusted: the instrumented reader implements the io.Reader contract (never returns 0, nil).", "3/C08"),
+   "Every input (files, truncations incl. cuts inside out-of-line values, malformations, grammar-based shapes) is decoded over an in-memory reader and then over every schedule of a fixed list of short-read schedules (1 byte ... 4097, 64 KiB, mixed cycles, data delivered together with io.EOF, whole requests with data+EOF on the last read, and once over a source that now and then returns (0, nil)) with a working Seek; canonical observations must be identical.",
+   "Trusted: the instrumented reader implements the io.Reader contract ((0, nil) only in the runs that say so, never twice in a row).", "3/C08"),
  "C09": ("exploration", "exhaustive perturbation enumeration against an independent signature table; cross-entry agreement monitor",
-   "All single-byte perturbations of 31 canonical headers, suffix/truncation variants and seeded random/two-byte perturbations go through Buf, Scan, ScanBuf and ReadAt, and through Scan/ScanBuf over one-byte, uneven and data+EOF readers; agreement, prefix-only dependence, non-consumption, error mapping, soundness and completeness against the harness's own signature table are asserted.",
+   "All single-byte perturbations of 31 canonical headers, suffix/truncation variants and seeded random/two-byte perturbations go through Buf, Scan, ScanBuf and ReadAt, and through Scan/ScanBuf over one-byte, uneven, data+EOF and zero-read readers; agreement, prefix-only dependence, non-consumption, error mapping, soundness and completeness against the harness's own signature table are asserted.",
    "Trusted: the harness's signature table (liberal form for soundness, documented standard form for completeness).", "3/C09"),
  "C10": ("exploration", "reference-model monitor: generator-held segment list vs recording callbacks of ScanJPEG",
    "Marker streams are generated with recorded offsets and payloads; recording callbacks implement the consumption behaviours the property quantifies over; callback order, header fields (absolute TIFF offset), readable bytes and the final error are compared with the record.",
    "Trusted: the harness's JPEG writer; fill bytes and parameterless markers are not generated in the header area.", "3/C10"),
  "C11": ("exploration", "position monitor on a harness-owned bufio.Reader + recording callbacks vs generator-held box tree",
-   "Random box trees (well-formed; with a child or a whole chain of last children over/understating its size; with a nested header at a 4 KiB buffer boundary; with minimal TIFF blocks) are read through isobmff.Reader with callbacks that read all, part or nothing and sometimes report an error; the stream position after every top-level box and the bytes/headers seen by Exif, XMP and preview callbacks are compared with the tree.",
+   "Random box trees (well-formed; with a child or a whole chain of last children over/understating its size; with a nested header at a 4 KiB buffer boundary; with minimal TIFF blocks; HEIF-shaped files with 32/64-bit and one or two mdat boxes) are read through isobmff.Reader with callbacks that read all, part or nothing and sometimes report an error; the stream position after every top-level box and the bytes/headers seen by the Exif (CMT1-4 and the HEIF Exif item), XMP and preview callbacks are compared with the tree.",
    "Trusted: the harness's box writer; top-level boxes are well-formed in every case.", "3/C11"),
  "C12": ("exploration", "exhaustive prefix enumeration against a naive search in the harness",
-   "Every prefix over the signature alphabet up to length 7 (10 thorough) and random prefixes around buffer-refill boundaries precede an II/MM header; offset, byte order, first-IFD offset, reader position and the ErrNoExif condition are compared with a naive search of the same bytes.",
+   "Every prefix over the signature alphabet up to length 7 (10 thorough) and random prefixes around buffer-refill boundaries precede an II/MM header; offset, byte order, first-IFD offset, reader position and the ErrNoExif condition are compared with a naive search of the same bytes; the entry points that locate a block by this search must agree on it, also from readers positioned at 2 GiB..1 TiB of a virtual object.",
    "Trusted: the naive search; bufio.Reader arguments have at least 32 bytes of buffer.", "3/C12"),
  "C13": ("exploration", "reference-model monitor: generator-held XMP record vs parse result, attribute vs element differential, length sweep",
    "Records of supported properties are serialised by the harness in attribute, element and mixed form with style variation and unknown properties; parse results are compared with the record and with each other; one property's value length is swept over 1..1100 in both forms; over-long tokens must not yield a wrong value.",
